@@ -662,3 +662,72 @@ def mangled_lookup(cls, name):
     if name.startswith('__') and not name.endswith('__'):
         return cls.methods.get(name)
     return None
+
+
+# ---------------------------------------------------------------------------
+# shape matching (variable-name agnostic) used instead of comparing unparsed text
+# ---------------------------------------------------------------------------
+
+def find_calls(node, name, nested=False):
+    it = ast.walk(node) if nested else walk_no_nested(node)
+    return [c for c in it if isinstance(c, ast.Call) and call_name(c) == name]
+
+
+def shape(expr, pat):
+    """Does `expr` have the shape `pat`?
+    pat: None (anything) | ('name', id or None) | ('const', value) | ('call', method[, argpats]) | ('attr', 'a.b' suffix)
+         | ('recv', 'text')  (exact receiver text)  | callable(expr) -> bool"""
+    if pat is None:
+        return True
+    if callable(pat):
+        return bool(pat(expr))
+    kind = pat[0]
+    if kind == 'name':
+        return isinstance(expr, ast.Name) and (pat[1] is None or expr.id == pat[1])
+    if kind == 'const':
+        return isinstance(expr, ast.Constant) and expr.value == pat[1]
+    if kind == 'call':
+        if not (isinstance(expr, ast.Call) and call_name(expr) == pat[1]):
+            return False
+        if len(pat) > 2 and pat[2] is not None:
+            args = list(expr.args) + [k.value for k in expr.keywords]
+            return all(any(shape(a, p) for a in args) for p in pat[2])
+        return True
+    if kind == 'attr':
+        return isinstance(expr, (ast.Attribute, ast.Name)) and (ast.unparse(expr) == pat[1] or ast.unparse(expr).endswith('.' + pat[1]))
+    if kind == 'enum':
+        ch = attr_chain(expr)
+        return bool(ch) and len(ch) >= 2 and ch[-2] == pat[1] and ch[-1] == pat[2]
+    raise ValueError(pat)
+
+
+def call_matches(call, args=None, kwargs=None):
+    """positional/keyword-insensitive: every pattern in `args` matches some argument; every kwargs name is passed
+    (as keyword) with a value of the given shape."""
+    allargs = list(call.args) + [k.value for k in call.keywords]
+    for p in args or []:
+        if not any(shape(a, p) for a in allargs):
+            return False
+    for name, p in (kwargs or {}).items():
+        v = kwarg(call, name)
+        if v is None or not shape(v, p):
+            return False
+    return True
+
+
+def receiver_name(call):
+    """Name id of the receiver of a method call `x.m(...)`, else None."""
+    if isinstance(call.func, ast.Attribute) and isinstance(call.func.value, ast.Name):
+        return call.func.value.id
+    return None
+
+
+def assigned_from(fn, pred):
+    """names of locals assigned from an expression satisfying pred"""
+    out = []
+    for n in walk_no_nested(fn):
+        if isinstance(n, ast.Assign) and pred(n.value):
+            for t in n.targets:
+                if isinstance(t, ast.Name):
+                    out.append(t.id)
+    return out
